@@ -65,17 +65,26 @@ fn case_strategy(tier: Tier) -> BoxedStrategy<Case> {
                 Cols::U1 | Cols::U2 | Cols::U4 => (0usize..=120).boxed(),
                 _ => len_strategy(tier),
             };
+            let normal = (seq_strategy(k, len), mat_strategy(abc, width_strategy(if abc == Abc::Dna { 70 } else { 40 }), Regimes::ALL)).boxed();
+            // a motif nearly as long as the sequence: 0..40 valid positions, i.e. fewer (or just more) than
+            // the sequence has striped rows, on sequences of more than 4 rows
+            let long = (100usize..=400, 0usize..=40)
+                .prop_flat_map(move |(m, d)| (seq_strategy(k, Just(m - 1 + d).boxed()), mat_strategy(abc, Just(m).boxed(), Regimes::ALL)))
+                .boxed();
+            let seq_mat = match cols {
+                Cols::U16 | Cols::U32 => prop_oneof![12 => normal, 1 => long].boxed(),
+                _ => normal,
+            };
             (
                 Just(abc),
                 Just(cols),
-                seq_strategy(k, len),
-                mat_strategy(abc, width_strategy(if abc == Abc::Dna { 70 } else { 40 }), Regimes::ALL),
+                seq_mat,
                 prop_oneof![3 => Just(0usize), 1 => 1usize..=3, 1 => 30usize..=40],
                 (0u8..=16, 0u8..=16),
                 (prop_oneof![2 => Just(0usize), 1 => 1usize..=50], prop_oneof![1 => Just(0usize), 1 => 1usize..=8]),
             )
         })
-        .prop_map(|(abc, cols, seq, mat, extra_wrap, sub, (prev_rows, first_width))| Case { abc, cols, seq, mat, extra_wrap, sub, prev_rows, first_width })
+        .prop_map(|(abc, cols, (seq, mat), extra_wrap, sub, (prev_rows, first_width))| Case { abc, cols, seq, mat, extra_wrap, sub, prev_rows, first_width })
         .boxed()
 }
 
@@ -85,7 +94,7 @@ impl Sub for ScoreSub {
         "score"
     }
     fn rule(&self) -> &'static str {
-        "alphabet x layout x boundary-biased length x sequence mode x matrix regime (library / finite / -inf / small-int) x width 1..70 x extra wrap x row sub-range x reused buffer; every backend implemented for the layout (generic, sse2, avx2, dispatch forced to each arm) and every read-out path compared with a linear-sequence reference; non-trivial = L >= M and R >= 2 (distinct by full case)"
+        "alphabet x layout x boundary-biased length x sequence mode x matrix regime (library / finite / -inf / small-int) x width 1..70 (and, 1 case in 13, width 100..400 on a sequence with only 0..40 valid positions) x extra wrap x row sub-range x reused buffer; every backend implemented for the layout (generic, sse2, avx2, dispatch forced to each arm) and every read-out path compared with a linear-sequence reference; non-trivial = L >= M and R >= 2 (distinct by full case)"
     }
     fn cases(&self, tier: Tier) -> u64 {
         tier.pick(100_000, 3_000_000)
@@ -322,6 +331,7 @@ fn classify<C: PositiveLength>(case: &Case, l: usize, m: usize, rows: usize, sub
     info.nontrivial = l >= m && rows >= 2;
     info.class_if(l < m, "L<M");
     info.class_if(l == m, "L=M");
+    info.class_if(l >= m && l - m + 1 < rows && rows > 4, "fewer-valid-positions-than-rows(R>4)");
     info.class_if(l >= 1024, "L>=1024");
     info.class_if(l >= 8192, "L>=8192");
     info.class_if(case.abc == Abc::Protein, "protein");
